@@ -53,6 +53,8 @@ class VCase(im.IMCase):
         vol = abs(self.c0[4])
         worst = 0.0
         for t, (vals, sigs, vl, sl) in enumerate(steps):
+            if (t + 1) * nv > len(so):
+                break   # the formula is evaluated on a prefix of the stream (im.SPEC_STEPS); the model covers the rest
             c = self.cs[t]
             price = max(price, max(abs(x) for x in c[:4]))
             vol = max(vol, abs(c[4]))
